@@ -417,7 +417,15 @@ def run(ctx):
     from . import c01
 
     plan = [p_ for p_ in sweep.default_plan(ctx.tier) if p_[0].startswith("bigweights")]
-    cov["rule"] += "; (N) the 'bigweights' network level (weights far larger than the fast storage x 5 configurations) compiled by vela.main and executed by the functional executor"
+    # convolutions that share one weight tensor but not their biases: the second one hits the compression cache and gets a stand-alone scale
+    # tensor whose (core, slice) ranges are addressed separately from the weight ranges (dual-core parts, several depth slices)
+    from ..tfl import nets
+
+    shared = sweep.histories(nets.STARTS_Q if ctx.tier == "quick" else nets.STARTS_T, ["conv_pair_shared", "conv_pair_shared_d3"] if ctx.tier != "quick" else ["conv_pair_shared"], 1)
+    shared += [dict(start=([1, 8, 8, 64], "int8"), steps=["conv_pair_shared"]), dict(start=([1, 4, 4, 40], "int8"), steps=["conv3x3", "conv_again", "conv_again"])]
+    plan.append(("sharedweightsxC8", shared, "c8"))
+    plan.append(("sharedweightsxCW", shared[-2:], "cW"))
+    cov["rule"] += "; (N) the 'sharedweights' level (convolutions sharing a weight tensor with their own biases x 8 + 5 configurations) and the 'bigweights' network level (weights far larger than the fast storage x 5 configurations) compiled by vela.main and executed by the functional executor"
     cov.pop("evaluations")
     cov.pop("distinct_nontrivial")
     return netrun.run(ctx, c01.oracle, "model_checking", rule=cov.pop("rule"),
